@@ -7,13 +7,14 @@ import DateutilVerif.Ops.Base
 import DateutilVerif.Ops.Factory
 import DateutilVerif.Ops.ICal
 import DateutilVerif.Ops.IsoParser
+import DateutilVerif.Ops.Parser
 import DateutilVerif.Ops.RRuleStr
 import DateutilVerif.Ops.RelativeDelta
 import DateutilVerif.Ops.TzStr
 import DateutilVerif.Ops.Zones
 
 def handlers : List (String → List String → Option String) :=
-  [Ops.Base.handle, Ops.Factory.handle, Ops.ICal.handle, Ops.IsoParser.handle, Ops.RRuleStr.handle, Ops.RelativeDelta.handle, Ops.TzStr.handle, Ops.Zones.handle]
+  [Ops.Base.handle, Ops.Factory.handle, Ops.ICal.handle, Ops.IsoParser.handle, Ops.Parser.handle, Ops.RRuleStr.handle, Ops.RelativeDelta.handle, Ops.TzStr.handle, Ops.Zones.handle]
 
 def dispatch (line : String) : String :=
   match (line.trimAscii.toString.splitOn " ").filter (· ≠ "") with
